@@ -1,8 +1,12 @@
 """C17 — the C binding mirrors the Rust API, reports errors by code and does not abort."""
 import json
+import os
 import random
+import re
+import subprocess
+from concurrent.futures import ThreadPoolExecutor
 
-from .common import Run, Broken
+from .common import Run, Broken, HARNESS, Lock, sh, ddmin
 
 RULE = ("call sequences up to length 40 over new / parse_formula / copy / get / set / increment / add / subtract / scale / "
         "mass / free through the exported extern \"C\" functions, with valid, malformed and non-UTF-8 NUL-free byte "
@@ -74,6 +78,86 @@ def gen_sequences(r: Run):
         if ops:
             seqs.append(ops)
     return seqs
+
+
+# ---- AddressSanitizer replay ------------------------------------------------------------------
+ASAN_TARGET = HARNESS / "target-asan"
+ASAN_BIN = ASAN_TARGET / "x86_64-unknown-linux-gnu" / "debug" / "harness"
+ASAN_ENV = {"ASAN_OPTIONS": "detect_leaks=1:exitcode=66:abort_on_error=0:allocator_may_return_null=1:detect_stack_use_after_return=0",
+            "LSAN_OPTIONS": "exitcode=66"}
+
+
+def build_asan():
+    """the same harness, built by the nightly toolchain with -Zsanitizer=address (own target directory)"""
+    with Lock("cargo-asan"):
+        rc, out = sh(["cargo", "+nightly", "build", "--offline", "--quiet", "--target", "x86_64-unknown-linux-gnu"],
+                     cwd=HARNESS, timeout=1800,
+                     env={"RUSTFLAGS": "-Zsanitizer=address", "CARGO_TARGET_DIR": str(ASAN_TARGET)})
+    return rc == 0 and ASAN_BIN.exists(), out
+
+
+def asan_once(lines, timeout=600):
+    """run op lines through the sanitized harness; returns (clean, report).  clean = exit 0 and no sanitizer text"""
+    e = dict(os.environ)
+    e.update(ASAN_ENV)
+    try:
+        p = subprocess.run([str(ASAN_BIN), "exec", "cbind"], input=("\n".join(lines) + "\n").encode(), env=e,
+                           stdout=subprocess.PIPE, stderr=subprocess.PIPE, timeout=timeout)
+    except subprocess.TimeoutExpired:
+        return False, "timeout under AddressSanitizer"
+    err = p.stderr.decode("utf-8", "replace")
+    san = re.search(r"(AddressSanitizer|LeakSanitizer)[^\n]*", err)
+    if p.returncode == 0 and not san:
+        return True, ""
+    summ = re.findall(r"SUMMARY: [^\n]*", err)
+    first = re.search(r"ERROR: (AddressSanitizer|LeakSanitizer): [^\n]*", err)
+    return False, (first.group(0) if first else (san.group(0) if san else f"exit status {p.returncode}")) + \
+        (" / " + summ[-1] if summ else "")
+
+
+def asan_replay(r: Run, seqs, lines):
+    """every generated call sequence again, in the sanitized build; a report is narrowed to one sequence and
+    then to a minimal call list.  Sequences on which the plain build already died are skipped (reported there)."""
+    ok, out = build_asan()
+    if not ok:
+        r.notes["asan"] = "unavailable: " + out[-300:]
+        r.assumptions.append("the AddressSanitizer build of the harness (nightly, -Zsanitizer=address) did not build here; "
+                             "the memory-safety clause rests on ownership + the child's exit status in this run")
+        return None
+    shards = 16
+    chunks = [list(range(i, len(lines), shards)) for i in range(shards)]
+    with ThreadPoolExecutor(max_workers=shards) as ex:
+        res = list(ex.map(lambda idx: asan_once([lines[i] for i in idx]), chunks))
+    bad = 0
+    bad_shards = sum(1 for c, _ in res if not c)
+    for idx, (clean, rep) in zip(chunks, res):
+        if clean or bad >= 3:
+            continue
+        # narrow to one sequence of this shard (first failing one), then to a minimal call list
+        found = False
+        for i in idx:
+            c1, rep1 = asan_once([lines[i]], timeout=120)
+            if c1:
+                continue
+            found = True
+            bad += 1
+            ops = seqs[i]
+            small = ddmin(ops, lambda sub: not asan_once(["cbind\t" + ";".join(sub)], timeout=120)[0])
+            _, rep2 = asan_once(["cbind\t" + ";".join(small)], timeout=120)
+            r.violation("asan", {"calls": [o.split()[0] for o in small]},
+                        f"AddressSanitizer reports on the contract-abiding call sequence `{';'.join(small)[:200]}`: {rep2[:200]}",
+                        expected="no invalid access, double free or leak once every handle has been freed",
+                        observed={"lines": ["cbind\t" + ";".join(small)], "impl": rep2[:400]})
+            break
+        if not found:
+            # the shard reports as a whole but no single sequence does: report the shard
+            bad += 1
+            r.violation("asan", {"calls": ["<shard>"]}, f"AddressSanitizer reports on a batch of sequences: {rep[:200]}",
+                        observed={"lines": [lines[i] for i in idx][:50], "impl": rep[:400]})
+    bad = max(bad, bad_shards)
+    r.notes["asan"] = dict(sequences=len(lines), reports=bad, options=ASAN_ENV["ASAN_OPTIONS"],
+                           build="cargo +nightly build --target x86_64-unknown-linux-gnu, RUSTFLAGS=-Zsanitizer=address")
+    return bad == 0
 
 
 def to_model_ops(ops, outs):
@@ -152,7 +236,12 @@ def run(r: Run):
                 break
     r.coverage["sequences"] = len(seqs)
     r.oblige("correspondence: every C-ABI call returns the code / out-pointer / observable state the model predicts, and no call aborts", "corr", corr_ok)
-    r.assumptions.append("memory safety (no invalid access / double free / leak) is not a theorem: handle bookkeeping is proved on the model, Rust ownership is trusted, the child's exit status is observed")
+    alive = [(ops, line) for ops, line, k in zip(seqs, lines, keep) if k not in (None, "skip")]
+    clean = asan_replay(r, [a for a, _ in alive], [b for _, b in alive])
+    if clean is not None:
+        r.oblige("AddressSanitizer replay: no invalid access, double free or leak on any generated call sequence (all handles freed)", "corr", clean)
+    r.assumptions.append("memory safety (no invalid access / double free / leak) is not a theorem: handle bookkeeping is proved on the model "
+                         "(handles_balance), Rust ownership is trusted, and every generated sequence is replayed under AddressSanitizer + LeakSanitizer")
     return r.finish(RULE)
 
 
@@ -162,4 +251,6 @@ def replay(r: Run, path):
     for line in rec["observed"]["lines"]:
         print("case :", line[:400])
         print("impl :", r.impl("cbind", [line], stall=30)[0][:800].replace(";", "\n       "))
+        if rec.get("clause") == "asan" and build_asan()[0]:
+            print("asan :", asan_once([line], timeout=120))
     return 0
